@@ -278,10 +278,26 @@ func explainTruncation(ds []Diff, x, y Canon, proto, reqHex string) []Diff {
 	if len(raw) > limit || m.Unpack(raw) != nil {
 		return ds
 	}
+	// The decoded path's message is not the byte path's: names that the byte
+	// path reads through a pointer into the question carry the client's letter
+	// case there (FINDINGS #1) and the stored case on the decoded path, which
+	// changes what the library's case-sensitive compression (and Len) makes of
+	// them. Measure both spellings: as the byte path sent it, and with every
+	// record name in the stored (lower-case) spelling under the client's
+	// question.
 	m.Compress = true
-	est := m.Len()
-	packed, perr := m.Pack()
-	if perr != nil || len(packed) > limit || est <= limit {
+	variants := []*dns.Msg{m, storedSpelling(m)}
+	var est, packedLen int
+	explained := false
+	for _, v := range variants {
+		e := v.Len()
+		packed, perr := v.Pack()
+		if perr == nil && len(packed) <= limit && e > limit {
+			est, packedLen, explained = e, len(packed), true
+			break
+		}
+	}
+	if !explained {
 		return ds
 	}
 	var out []Diff
@@ -294,7 +310,46 @@ func explainTruncation(ds []Diff, x, y Canon, proto, reqHex string) []Diff {
 	}
 	return append(out, Diff{Field: "truncation", Soft: true, Sig: sigTruncation,
 		Detail: fmt.Sprintf("byte path sent the whole reply (%d octets), decoded path sent TC=1 with empty sections; client limit %d, the library packs the reply into %d octets but Msg.Len() estimates %d",
-			len(raw), limit, len(packed), est)})
+			len(raw), limit, packedLen, est)})
+}
+
+// storedSpelling returns a copy of m whose record names (owners and the names
+// inside rdata) are lower-cased; the question keeps the client's spelling.
+func storedSpelling(m *dns.Msg) *dns.Msg {
+	c := m.Copy()
+	c.Compress = true
+	low := func(rrs []dns.RR) {
+		for _, rr := range rrs {
+			if rr.Header().Rrtype == dns.TypeOPT {
+				continue
+			}
+			rr.Header().Name = strings.ToLower(rr.Header().Name)
+			switch v := rr.(type) {
+			case *dns.CNAME:
+				v.Target = strings.ToLower(v.Target)
+			case *dns.DNAME:
+				v.Target = strings.ToLower(v.Target)
+			case *dns.NS:
+				v.Ns = strings.ToLower(v.Ns)
+			case *dns.PTR:
+				v.Ptr = strings.ToLower(v.Ptr)
+			case *dns.MX:
+				v.Mx = strings.ToLower(v.Mx)
+			case *dns.SRV:
+				v.Target = strings.ToLower(v.Target)
+			case *dns.SOA:
+				v.Ns, v.Mbox = strings.ToLower(v.Ns), strings.ToLower(v.Mbox)
+			case *dns.RRSIG:
+				v.SignerName = strings.ToLower(v.SignerName)
+			case *dns.NSEC:
+				v.NextDomain = strings.ToLower(v.NextDomain)
+			}
+		}
+	}
+	low(c.Answer)
+	low(c.Ns)
+	low(c.Extra)
+	return c
 }
 
 // explainHopPrefetch recognises ONE mechanism (FINDINGS.md #4): with prefetch
@@ -717,6 +772,7 @@ const slowLimit = 150 * time.Millisecond
 // Returns false on a harness-level problem (already reported).
 func runGroup(r *vlib.Run, g *Group) bool {
 	for attempt := 0; attempt < 2; attempt++ {
+		resetCanonMemo()
 		msg := runWorld(g, worldMsg)
 		raw := runWorld(g, worldRaw)
 		inl := runWorld(g, worldInline)
@@ -740,11 +796,18 @@ func runGroup(r *vlib.Run, g *Group) bool {
 			// a session's verdict rests on token arithmetic of its own bucket
 			// (client limiter: one token per 60/rate s; entry limiter: rate per
 			// second): a session that stalled is re-run once, else not judged
-			limit := time.Second
-			if g.Conf.EntryRate > 0 {
-				limit = slowLimit
+			// client limiter: a bucket per session address, one token per 60/rate s
+			// (>= 2.5 s here) — a session shorter than 1 s cannot regain a token.
+			// entry limiters (rate per second, shared with the packet phase): no
+			// bucket may regain a whole token between the first case packet and
+			// the end of the last session — rate x window stays below 0.6.
+			slow := func(t *Transcript) bool {
+				if t.SessElapsed > time.Second {
+					return true
+				}
+				return g.Conf.EntryRate > 0 && t.WindowElapsed > 2*slowLimit
 			}
-			if msg.SessElapsed > limit || raw.SessElapsed > limit || inl.SessElapsed > limit {
+			if slow(msg) || slow(raw) || slow(inl) {
 				r.Count("sessions_too_slow", 1)
 				if !final {
 					continue
@@ -784,6 +847,7 @@ func runGroup(r *vlib.Run, g *Group) bool {
 func main() {
 	r := vlib.Start("C05", "exploration")
 	r.Assume("the stub (scripted upstream) answers purely by question (mixed-chain families: question + per-question invocation ordinal), so an admission history replays identically in every world")
+	r.Assume("client sessions are judged only when no limiter bucket they touch can have regained a whole token meanwhile (session < 1 s for the per-client limiter; first case packet to last session step < 300 ms where a per-entry limiter is configured); otherwise the group is re-run once and its sessions are then skipped (counted), never judged")
 	r.Assume("a client session's packets are built inside each world from that world's own earlier replies (server cookies are parsed out of replies, never computed by the harness)")
 	r.Assume("option ORDER inside the reply OPT and record order inside a section are not compared (multisets), as the statement allows")
 	r.Assume("token buckets refill on the wall clock: a limiter-bearing group whose packet phase took > 150 ms is re-run once and otherwise skipped (counted), never judged")
